@@ -26,6 +26,10 @@ DRIVERS = ["pathm"]
 # because the link test was `exists() and is_symlink()`) was repaired in /repo by 039cc0c; its witnesses are corpus
 # cases with "expect": "refused" and a path with such a link that is not refused is an unattributed failure again.
 FIXED_BY = "039cc0c"
+# source URIs: a cyclic link followed by '..' makes Path.resolve() (CPython 3.12) return a path whose later components are NOT
+# resolved, so a link inside the base that points outside passes the containment check (found by the sibling/staleness stream)
+URI_FINDING = "C19-source-uri-cycle-dotdot"
+URI_WITNESS = ("sb", "loop.md/../lf.md")
 
 DOC = "===D===\nA::1\n===END===\n"
 NEWDOC = "===D===\nA::2\n===END===\n"
@@ -652,7 +656,8 @@ def frozen_and_uri(job):
             try:
                 p = hydrator.validate_source_uri(u, Path(basep))
                 oc = "OK " + str(p).replace(base, "{B}")
-                inside = (str(p) + "/").startswith(root_real + "/")
+                # the returned path claims to be resolved: both its text and the file it names (links followed) must be inside
+                inside = (str(p) + "/").startswith(root_real + "/") and (os.path.realpath(str(p)) + "/").startswith(root_real + "/")
             except hydrator.SourceUriSecurityError:
                 oc, inside = "REFUSED", True
             except BaseException as e:  # noqa
@@ -668,7 +673,7 @@ def frozen_and_uri(job):
                 status, got_hash = "EXC:" + type(e).__name__, False
             ops = REC
             REC = None
-            uris.append((base_rel, uraw, oc, inside, {"escapes": escapes, "status": status, "hash": got_hash, "outside_reads": outside_reads(ops, root_real)}))
+            uris.append((base_rel, uraw, oc, inside, {"escapes": escapes, "cycle_then_dotdot": cycle_then_dotdot(basep, u), "status": status, "hash": got_hash, "outside_reads": outside_reads(ops, root_real)}))
         # CLI: octave hydrate FILE --check --project-root <base dir>
         clis = []
         from click.testing import CliRunner
@@ -692,7 +697,8 @@ def frozen_and_uri(job):
             ops = REC
             REC = None
             os.unlink(docp)
-            clis.append((base_rel, uraw, oc, {"escapes": escapes, "outside_reads": outside_reads(ops, root_real)}))
+            clis.append((base_rel, uraw, oc, {"escapes": escapes, "cycle_then_dotdot": cycle_then_dotdot(basep, u),
+                                             "outside_reads": outside_reads(ops, root_real)}))
         return {"base": base, "digests": (dg, dbad), "frozen": fro, "uris": uris, "cli": clis,
                 "oracle": [(good.decode(), dg), (bad.decode(), hashlib.sha256(bad).hexdigest())]}
     finally:
@@ -714,6 +720,33 @@ HYDRATED = ('===HYDRATED_DOC===\nMETA:\n  TYPE::"SPEC"\n  VERSION::"1.0.0"\n\n\u
 # the characters of the resolved string (startswith / commonprefix) instead of on its components lets them through
 SIB_SUFFIXES = ("-private", "2", "_old", ".bak")
 URI_BASES = ("sb", "sb/d")
+
+
+def cycle_then_dotdot(basep, u):
+    """Classifier of finding C19-source-uri-cycle-dotdot, read off the real tree without pathlib: walking the components of
+    `u` from `basep` lexically, some component is a symbolic link for which stat gives ELOOP (a link cycle) and a LATER component
+    is '..'."""
+    import errno
+    cur, seen_loop = basep, False
+    for c in u.split("/"):
+        if c in ("", "."):
+            continue
+        if c == "..":
+            if seen_loop:
+                return True
+            cur = os.path.dirname(cur)
+            continue
+        cur = os.path.join(cur, c)
+        try:
+            if os.path.islink(cur):
+                try:
+                    os.stat(cur)
+                except OSError as e:
+                    if e.errno == errno.ELOOP:
+                        seen_loop = True
+        except ValueError:
+            return False
+    return False
 
 
 def sibling_spec(base):
@@ -773,7 +806,8 @@ def sibling_uris():
             ("sb/d", "ldsib/x.oct.md"), ("sb/d", "ldsibf.oct.md"), ("sb/d", "../lsib/x.oct.md"),
             # controls: inside the base (must be accepted / hashed), and an unrelated outside directory
             ("sb", "x.oct.md"), ("sb", "d/x.oct.md"), ("sb", "d/../x.oct.md"), ("sb/d", "x.oct.md"), ("sb/d", "e/../x.oct.md"),
-            ("sb", "../out/secret.md"), ("sb/d", "../../out/secret.md"), ("sb/d", "../x.oct.md")]
+            ("sb", "../out/secret.md"), ("sb/d", "../../out/secret.md"), ("sb/d", "../x.oct.md"),
+            URI_WITNESS, ("sb", "loop.md/x/../../lf.md"), ("sb", "la.md/../d/up.md"), ("sb", "loop.md/../lsib/secret.oct.md")]
     return out
 
 
@@ -1211,6 +1245,8 @@ def run(ctx):
     # ---- finding witnesses (replayed on the implementation every run) ----
     for fid, f in ctx.known.items():
         w = f["witness"]
+        if "path" not in w:          # source-URI findings are replayed in the URI stream below
+            continue
         still = False
         for b in batches:
             for r in b["results"]:
@@ -1278,24 +1314,30 @@ def run(ctx):
             return "abs-prefix-sibling" if u.startswith(("/", "{B}")) else "dotdot-prefix-sibling"
         return "other"
 
+    witness_seen = {}
     for i, (base_rel, u, oc, inside, stale) in enumerate(fu["uris"]):
         ctx.count(2)
         ctx.hist("source_uri", oc.split(" ")[0].split(":")[0])
         sc = sib_class(u)
         ctx.hist("source_uri_class", sc + (":escapes" if stale["escapes"] else ":inside" if stale["escapes"] is False else ":nul"))
         ctx.hist("staleness", ("escaping" if stale["escapes"] else "inside") + " -> " + stale["status"])
-        case = {"source_uri": u, "base": "{B}/" + base_rel, "outcome": oc, "escapes_base(os.path.realpath)": stale["escapes"]}
+        case = {"source_uri": u, "base": "{B}/" + base_rel, "outcome": oc, "escapes_base(os.path.realpath)": stale["escapes"],
+                "cycle_then_dotdot": stale["cycle_then_dotdot"]}
         if oc.startswith("OK") or sc != "other":
             ctx.nontrivial(("uri", base_rel, u))
+        fid = URI_FINDING if stale["cycle_then_dotdot"] else None
+        if (base_rel, u) == URI_WITNESS:
+            witness_seen["still"] = (oc.startswith("OK") and not inside) or stale["status"] in ("FRESH", "STALE")
         if oc.startswith("OK") and not inside:
-            ctx.property_failure(case, "source URI resolved outside its base directory")
+            ctx.property_failure(case, "source URI resolved outside its base directory (the returned path, links followed, names a file outside)",
+                                 finding=fid)
         # check_staleness on a manifest naming this URI: an escaping URI must end in ERROR without a hash, and no file outside the
         # base may be opened for any URI
         scase = dict(case, surface="check_staleness(doc, base_path=base)", staleness=stale)
         if stale["outside_reads"]:
-            ctx.property_failure(scase, "check_staleness opened a file outside the base directory of the SOURCE_URI")
+            ctx.property_failure(scase, "check_staleness opened a file outside the base directory of the SOURCE_URI", finding=fid)
         elif stale["escapes"] and (stale["status"] in ("FRESH", "STALE") or stale["hash"]):
-            ctx.property_failure(scase, "check_staleness hashed a SOURCE_URI that resolves outside its base directory")
+            ctx.property_failure(scase, "check_staleness hashed a SOURCE_URI that resolves outside its base directory", finding=fid)
         if mres is not None:
             m = mres[off + i]
             mm = ("OK " + dec_path(m.split(" ")[1]).replace(base, "{B}")) if m.startswith("OK") else m
@@ -1309,16 +1351,22 @@ def run(ctx):
             elif stale["status"] in ("FRESH", "STALE") and not u.startswith(("/", "{B}")) and not mm.startswith("OK"):
                 # the model's containment is on COMPONENT lists (path_prefixb): a hash of a file the model places outside
                 ctx.correspondence_failure(dict(scase, model=mm), "check_staleness hashed a file the model's validate_uri does not accept")
+    if URI_FINDING in ctx.known:
+        if "still" not in witness_seen:
+            ctx.obligation_failure("finding-witness", f"witness of {URI_FINDING} was not executed")
+        ctx.finding_witness(URI_FINDING, witness_seen.get("still", False))
     for base_rel, u, oc, info in fu["cli"]:
         ctx.count()
         ctx.hist("cli_hydrate_check", ("escaping" if info["escapes"] else "inside") + " -> " + oc)
         ctx.nontrivial(("cli-hydrate", base_rel, u))
         case = {"surface": "octave hydrate FILE --check --project-root <base>", "source_uri": u, "base": "{B}/" + base_rel, "outcome": oc,
-                "escapes_base(os.path.realpath)": info["escapes"], "outside_reads": info["outside_reads"]}
+                "escapes_base(os.path.realpath)": info["escapes"], "cycle_then_dotdot": info["cycle_then_dotdot"],
+                "outside_reads": info["outside_reads"]}
+        fid = URI_FINDING if info["cycle_then_dotdot"] else None
         if info["outside_reads"]:
-            ctx.property_failure(case, "octave hydrate --check opened a file outside --project-root")
+            ctx.property_failure(case, "octave hydrate --check opened a file outside --project-root", finding=fid)
         elif info["escapes"] and ("FRESH:" in oc or "STALE:" in oc):
-            ctx.property_failure(case, "octave hydrate --check hashed a SOURCE_URI that resolves outside --project-root")
+            ctx.property_failure(case, "octave hydrate --check hashed a SOURCE_URI that resolves outside --project-root", finding=fid)
     ctx.extra["source_uri_rule"] = (
         "two base directories (sb, sb/d); beside each, sibling directories whose names have the base name as a proper prefix "
         "(<base>-private, <base>2, <base>_old, <base>.bak) with readable .oct.md files, reached via '..', via absolute paths and via "
